@@ -1,8 +1,10 @@
 #!/bin/bash
-# vall.sh [tier] — run every registered check once on /repo's working tree (regenerates /verif/evidence).
-TIER=${1:-quick}
+# vall.sh [tier] [first] [last] — run the registered checks C<first>..C<last> (default 1..18) once on /repo's working
+# tree (regenerates /verif/evidence for them).
+TIER=${1:-quick}; A=${2:-1}; B=${3:-18}
 rc=0
-for i in $(seq -w 1 18); do
-  python3 "$(dirname "$0")/vcheck.py" C$i --tier $TIER | grep -E "^property=|VIOLATION|KNOWN-FINDING|BUILD-FAILED" || rc=1
+for i in $(seq -w $A $B); do
+  i=$(printf "%02d" $((10#$i)))
+  python3 "$(dirname "$0")/vcheck.py" C$i --tier $TIER | grep -E "^property=|VIOLATION|KNOWN-FINDING|BUILD-FAILED|failing class|^  [a-z]" || rc=1
 done
 exit $rc
